@@ -47,6 +47,9 @@ type sconn struct {
 	written   []wrec
 	wdeadline time.Duration // virtual offset; 0 = none
 	wexpired  bool
+	rdeadline time.Duration // read deadline as a virtual offset; 0 = none
+	rgen      int           // incremented by every SetReadDeadline: an armed expiry belongs to one setting
+	rexpired  bool
 	reads     int
 	log       []string // event log (reads, writes, errors, close) with virtual instants
 }
@@ -70,12 +73,35 @@ func readReady(c *sconn) bool {
 
 func (c *sconn) logStr() string { return strings.Join(c.log, " ") }
 
+func readExpire(c *sconn, gen int) {
+	if c.rgen == gen {
+		c.rexpired = true
+	}
+}
+
+func readReadyOrExpired(c *sconn) bool { return readReady(c) || c.rexpired }
+
 func (c *sconn) Read(p []byte) (int, error) {
-	vsched.PointOp("conn.read", 1000+c.id, func() bool { return readReady(c) })
+	// a read deadline, if the library sets one, is honoured in virtual time: the call returns a
+	// timeout error when the deadline passes with nothing to read
+	c.rexpired = false
+	if !readReady(c) && c.rdeadline > 0 {
+		if d := c.rdeadline - vsched.NowOffset(); d <= 0 {
+			c.rexpired = true
+		} else {
+			gen := c.rgen
+			vsched.AddOneShot(d, func() { readExpire(c, gen) })
+		}
+	}
+	vsched.PointOp("conn.read", 1000+c.id, func() bool { return readReadyOrExpired(c) })
 	if vsched.Aborting() {
 		return 0, net.ErrClosed
 	}
 	c.reads++
+	if !readReady(c) && c.rexpired {
+		c.ev("read->timeout")
+		return 0, &net.OpError{Op: "read", Net: "scripted", Err: timeoutErr{}}
+	}
 	if c.closed {
 		c.ev("read->closed")
 		return 0, net.ErrClosed
@@ -167,8 +193,24 @@ func (c *sconn) Close() error {
 }
 func (c *sconn) LocalAddr() net.Addr               { return addr{} }
 func (c *sconn) RemoteAddr() net.Addr              { return addr{} }
-func (c *sconn) SetDeadline(t time.Time) error     { return nil }
-func (c *sconn) SetReadDeadline(t time.Time) error { return nil }
+func (c *sconn) SetDeadline(t time.Time) error {
+	_ = c.SetReadDeadline(t)
+	return c.SetWriteDeadline(t)
+}
+func (c *sconn) SetReadDeadline(t time.Time) error {
+	if c.closed {
+		return net.ErrClosed
+	}
+	c.rgen++
+	c.rdeadline = 0
+	if !t.IsZero() {
+		c.rdeadline = t.Sub(vsched.Epoch)
+		if c.rdeadline <= 0 {
+			c.rdeadline = 1 // already in the past
+		}
+	}
+	return nil
+}
 func (c *sconn) SetWriteDeadline(t time.Time) error {
 	if c.closed {
 		return net.ErrClosed
